@@ -389,6 +389,9 @@ pub fn run(ctx: &mut Ctx) {
             Err(_) => ctx.inconclusive.push("the live expiry thread died outside a guarded call".into()),
         }
     }
+    if ctx.shard == 0 && !ctx.slow_tool && !cfg!(miri) {
+        super::common::report_lock_discipline(ctx, "returned-while-ttl-runs", "live");
+    }
     for fp in monitor::take_foreign_panics() {
         let loc = monitor::short_loc(&fp.location);
         ctx.violation("returned-while-ttl-runs", &format!("service-thread-panic@{}", loc), format!("a service thread panicked during the live expiry family: {}", fp.message), json!({"family": "live", "idx": 0}));
